@@ -23,7 +23,7 @@ SEMANTIC = (
     'postcondition not satisfied', 'precondition not satisfied', 'possible arithmetic underflow/overflow',
     'possible division by zero', 'invariant not satisfied', 'assertion failed', 'decreases not satisfied',
     'possible bit shift underflow/overflow', 'loop invariant', 'recommendation not met',
-    'could not prove termination', 'unreachable', 'unable to prove', 'safe_api', 'may be out of range', 'cannot show',
+    'could not prove termination', 'unreachable', 'unable to prove', 'precondition not met', 'safe_api', 'may be out of range', 'cannot show',
 )
 RESOURCE = ('rlimit', 'resource limit', 'timed out', 'timeout', 'out of memory')
 # ownership errors on the map field are C16 obligations (DESIGN §6 C16)
@@ -375,6 +375,34 @@ def main():
         for u in undecided:
             print('UNDECIDED property=%s reason=%s' % (pid, u.replace('\n', ' ')[:600]))
         rc = 2
+        # The verifier could not decide (lost anchor, construct outside the subset, ...).  Before giving up, the
+        # run-time twins of the property statements are run against the real code: a concrete failing input on the
+        # real code is a violation whatever the verifier's state; finding none leaves the result UNDECIDED.
+        structural = [u for u in undecided if ('lost anchor' in u or 'front-end error' in u or 'tooling error' in u)]
+        if structural and not os.environ.get('VERIF_NO_TWIN_FALLBACK'):
+            try:
+                import replaytool, witness
+                ok, err = replaytool.build_replay_bin()
+                w = None
+                if ok:
+                    fake = {'full': 'undecided', 'fn': None, 'kind': 'undecided'}
+                    if pid in ('C01', 'C02', 'C05', 'C06', 'C07', 'C08', 'C10', 'C11', 'C12', 'C19'):
+                        w = witness.gen_refmodel(pid, fake)
+                    if w is None and pid in ('C09', 'C10', 'C12', 'C13', 'C18'):
+                        w = witness.gen_framing(pid, fake) or witness.gen_sock(pid, fake)
+                    if w is None and pid in ('C16',):
+                        w = witness.gen_hang(pid, fake)
+                if w is not None:
+                    os.makedirs(REPLAYS, exist_ok=True)
+                    path = os.path.join(REPLAYS, '%s-undecided-twin.json' % pid)
+                    json.dump({'property': pid, 'obligation': 'none: the verifier could not decide (%s)' % structural[0][:300],
+                               'decided_by': 'run-time twin of the property statement on the real code (a concrete failing input), after the verifier returned UNDECIDED',
+                               'verifier_message': structural[0], 'witness': w}, open(path, 'w'), indent=1)
+                    print('VIOLATION property=%s replay=%s' % (pid, path))
+                    violations.append({'full': 'undecided-twin'})
+                    rc = 1
+            except Exception as e:
+                print('UNDECIDED property=%s reason=twin fallback failed: %r' % (pid, e))
     if rebaseline and rc == 0:
         b = load_baseline()
         failed_set = set(f['full'] for f in failed_all)
